@@ -1,12 +1,42 @@
-"""Property -> rules table."""
+"""Property -> rules table.  Every entry: level, rules (callables ctx -> [Ob]), min_instances (anti-vacuity),
+explanation (what is decided, what is not), assumptions."""
 from __future__ import annotations
 
+from typing import Callable, Dict, List, Optional, Set
+
+from .report import Ob
 from .rules_siblings import SiblingEngine, r12_1_pairing, r12_2_routines
 from .rules_projection import r12_3_projections
+from .rules_effects import r13_1_no_param_written, r09_2_ownership, r_fresh_results, kernel_results_fresh
+from .wrappers import r13_2_reconcile_dominates
+from .rules_wrappers import (r_kernel_call_typestates, r05_1_route_identity, r14_1_dispatchers,
+                             r14_4_positional_binding, r14_5_keyword_flow)
+from .rules_indexkinds import r14_2_index_kinds, r06_4_matrix_fills
+from .rules_guards import r18_1_guarded_divisions
+from .rules_coincidence import r16_1_bounded_window, r03_5_limit_derivation, r03_2_strict_tests, r03_4_interpolate
+from .rules_symmetry import r07_1_symmetry
 
 
 def eng(ctx) -> SiblingEngine:
     return ctx.get('siblings', lambda c: SiblingEngine(c.repo))
+
+
+def only_rules(fn: Callable, keep: Set[str]) -> Callable:
+    """run a multi-rule function and keep only the obligations of the listed rules"""
+    def g(ctx):
+        return [o for o in fn(ctx) if o.rule in keep or o.rule.split('-')[0] in keep]
+    return g
+
+
+def relabel(fn: Callable, mapping: Dict[str, str]) -> Callable:
+    def g(ctx):
+        out = []
+        for o in fn(ctx):
+            if o.rule in mapping:
+                o = Ob(mapping[o.rule], o.title, o.status, o.where, o.detail, o.key, o.construct, o.extra)
+            out.append(o)
+        return out
+    return g
 
 
 COMMON_ASSUMPTIONS = [
@@ -14,26 +44,7 @@ COMMON_ASSUMPTIONS = [
     "semantics (cdivision, boundscheck=False, integer width) are not modelled",
     "canonical forms are exact over the reals, not over IEEE floats",
     "valid spike trains: strictly increasing finite times inside [t_start, t_end], t_start < t_end (the properties' quantifier)",
+    "closed tables of copying / in-place numpy operations (pyspike_sa/effects.py) and of positive divisor classes (pyspike_sa/rules_guards.py)",
 ]
 
-PROPS = {}
-
-PROPS['C12'] = dict(
-    level='translation_validation',
-    rules=[lambda c: r12_1_pairing(eng(c)), lambda c: r12_2_routines(eng(c)), lambda c: r12_3_projections(eng(c))],
-    min_instances={'R12.1': 20, 'R12.2': 14, 'R12.3': 100},
-    explanation=(
-        "Translation validation between the two sources of every backend routine, from the parsed .pyx and .py files "
-        "(Cython is not installed here, so nothing can be executed on the compiled side). R12.1: the dispatch sites "
-        "found by role pair existing symbols and setup.py builds every imported/cimported extension; R12.2: each "
-        "compiled routine and its fallback (10 kernel pairs + helper pairs) are equal after normalisation - symbolic "
-        "value numbering of straight-line regions, canonical polynomial forms, lifted element-wise stores, cursor "
-        "facts from the verified merge idiom (L1), last-ISI reuse (L2, premises checked), length relations of the "
-        "function classes (L3); R12.3: each compiled single-pass kernel is the compiled profile kernel with its "
-        "output statements replaced by the integration template (state projection + per-path template). NOT decided: "
-        "C-level semantics of the generated code, floating-point rounding."),
-    assumptions=COMMON_ASSUMPTIONS + [
-        "L3: value arrays of function objects are one shorter than (PWC/PWL) or as long as (Discrete) the breakpoint array",
-        "discrete single-pass kernels: an overwritten previous entry was 0 (coincidence is one-to-one; not decided statically)",
-    ],
-)
+PROPS: Dict[str, dict] = {}
